@@ -1,5 +1,68 @@
 """C25 canonical schema listing is faithful to the schema (engine C + in-package parser)."""
-from .. import schemaout
+import os
+import re
+
+from .. import gen, schemagen, schemaout
+from .c17 import scan_tl
+
+LEGACY = """
+_ {X:Type} result:X = ReqResult X;
+engine.query {X:Type} query:!X = engine.Query;
+engine.queryShortened query:%(VectorTotal int) = engine.Query;
+vectorTotal {t:Type} total_count:int vector:%(Vector t) = VectorTotal t;
+legacy.user#0d0e0f01 id:int name:string = legacy.User;
+---functions---
+@any rpcDestActor#7568aabd {X:Type} actor_id:long query:!X = X;
+@any rpcDestFlags#e352035e {X:Type} flags:int query:!X = X;
+@read legacy.getUser id:int = legacy.User;
+"""
+
+
+def old_generator_listing(ctx):
+    """the old generator's own command line (tlgen --canonicalFormPath): every combinator of the input, by name and tag, is in the listing"""
+    tlgen = gen.tool(ctx, "tlgen")
+    tl2gen = gen.tool(ctx, "tl2gen")
+    legacy = os.path.join(ctx.work, "legacy.tl")
+    open(legacy, "w").write(schemagen.PRELUDE + LEGACY)
+    crafted = os.path.join(ctx.work, "crafted_c25.tl")
+    open(crafted, "w").write(schemagen.PRELUDE + schemaout.CRAFTED)
+    n = 0
+    for name, files in [("legacy", [legacy]), ("crafted", [crafted]), ("cases", [os.path.join(ctx.scratch, f) for f in gen.REPO_SETS["cases"]]),
+                        ("goldmaster", [os.path.join(ctx.scratch, f) for f in gen.REPO_SETS["goldmaster"]])]:
+        out = os.path.join(ctx.work, "oldgen_%s.canonical" % name)
+        r = ctx.run([tlgen, "--canonicalFormPath=" + out] + files, cwd=ctx.work, timeout=300)
+        if r.rc != 0 or not os.path.exists(out):
+            ctx.note("tlgen --canonicalFormPath not produced for %s: %s" % (name, r.tail(200).replace("\n", " ")))
+            continue
+        listing = [re.sub(r"\s*//.*$", "", l).strip() for l in open(out).read().splitlines() if l.strip()]
+        heads = {}
+        for l in listing:
+            m = re.match(r"(?:@\w+\s+)*([A-Za-z_][\w.]*)#([0-9a-f]{8})", l)
+            if m:
+                heads[m.group(1)] = heads.get(m.group(1), 0) + 1
+        expected = {}
+        for f in files:
+            expected.update(scan_tl(open(f).read()))
+        n += 1
+        ctx.count()
+        sig = {"oracle": "canonical", "schema": "tlgen:" + name}
+        for cname, exp in expected.items():
+            if exp["builtin"]:
+                continue
+            if heads.get(cname, 0) != 1:
+                ctx.violation(dict(sig, **{"class": "old-generator-listing-misses-combinator"}), "tlgen --canonicalFormPath on %s: combinator %s is listed %d times (expected once)" % (name, cname, heads.get(cname, 0)),
+                              {"listing.txt": "\n".join(listing)})
+                break
+        # both generators print the same lines for the same input
+        out2 = os.path.join(ctx.work, "newgen_%s.canonical" % name)
+        r2 = ctx.run([tl2gen, "--language=canonical", "--outfile=" + out2] + files, cwd=ctx.work, timeout=300)
+        if r2.rc == 0 and os.path.exists(out2):
+            l2 = [re.sub(r"\s*//.*$", "", l).strip() for l in open(out2).read().splitlines() if l.strip()]
+            if sorted(l2) != sorted(listing):
+                diff = sorted(set(l2) ^ set(listing))[:4]
+                ctx.violation(dict(sig, **{"class": "old-and-new-generator-listings-differ"}), "canonical listing of %s differs between tlgen --canonicalFormPath and tl2gen --language=canonical: %s" % (name, diff))
+            ctx.distinct("tlgen/" + name)
+    ctx.cov.setdefault("counters", {})["old_generator_listings"] = n
 
 
 def run(ctx):
@@ -11,6 +74,8 @@ def run(ctx):
                        "annotations; fields (names, masks, repetitions with scale, types with effective bareness and arithmetic by value) and result types are compared "
                        "for combinators without nested type applications (the canonical form flattens those, so only names/tags/arity are compared there). "
                        "distinct_nontrivial = distinct (schema, combinator) fully compared.")
+    old_generator_listing(ctx)
+    ctx.cov["rule"] += " The old generator's command line (tlgen --canonicalFormPath) on a legacy-shapes schema, the crafted schema, cases and goldmaster: every combinator of the input (independent text scan) is listed exactly once, and the listing equals tl2gen's."
     ctx.require("schema sets", n, 10)
     ctx.require("canonical lines", t.get("canonical_lines", 0), 500)
     ctx.require("lines fully compared", t.get("canonical_lines_fully_compared", 0), 250)
